@@ -291,6 +291,62 @@ def fit(x, p):
                                 csize is None))
 
 
+def fit_sym(x, p):
+    """get_bytes_from_code with the code length and the length of the
+    compressed stream as symbolic integers (contents uninterpreted): the
+    solver looks for the boundary itself.  Accepted iff the stored form
+    (stream + 8 header bytes when the stream is shorter than the code, else
+    the code) fits 0x3d00 bytes and the code is at most 65535 characters;
+    when accepted, the area is 0x3d00 bytes, starts with the stored form and
+    is zero after it."""
+    code = x.mseq('code', 0, p['max'], mutable=False)
+    stream = x.mseq('stream', 0, p['max'])
+    n = hx.length(code)
+    clen = hx.length(stream)
+    if x.symbolic:
+        rt.stub(compress.compress_code, lambda c: stream)
+        saved = None
+    else:
+        saved = compress.compress_code
+        compress.compress_code = lambda c: bytearray(stream)
+    try:
+        raised = None
+        try:
+            area = p8png.get_bytes_from_code(code)
+        except Exception as e:
+            raised = e
+    finally:
+        if saved is not None:
+            compress.compress_code = saved
+    x.out('raised', raised is not None)
+    use_compressed = clen < n
+    size = Ite(use_compressed, clen + 8, n)
+    fits = And(size <= 0x3d00, n <= 0xffff)
+    x.check('refused exactly when the code does not fit',
+            (raised is None) == fits, info=repr(raised))
+    if raised is not None:
+        return
+    x.check('code area is exactly 0x3d00 bytes', hx.length(area) == 0x3d00)
+    a = x.int('addr', 0, 0x3d00 - 1)
+    got = area[a]
+    x.out('byte', got)
+    if use_compressed:
+        hdr = [58, 99, 58, 0, n >> 8, n & 255, 0, 0]
+        exp = 0
+        for k in range(8):
+            exp = Ite(a == k, hdr[k], exp)
+        if And(a >= 8, a < clen + 8):
+            exp = stream[a - 8]
+        elif a >= 8:
+            exp = 0
+    else:
+        if a < n:
+            exp = code[a]
+        else:
+            exp = 0
+    x.check('area = stored form, then zero padding', got == exp)
+
+
 def label_source(x, p):
     """file.to_file: the label comes from the existing destination, else
     from the bundled blank label; the destination is written last."""
@@ -393,6 +449,9 @@ HARNESSES = [
                                  'sfx': [0]}, label_px=[0x2000],
                            _budget=1800)]),
     Harness('label_source', label_source, quick=[Q]),
+    Harness('fit_sym', fit_sym, logic='QF_AUFBV',
+            quick=[dict(Q, max=0x11000)],
+            thorough=[dict(Q, max=0x40000)]),
     Harness('fit', fit,
             quick=[dict(Q, n=n, clen=c) for n, c in (
                 (0x3cff, 0x3d00), (0x3d00, 0x3d01), (0x3d01, 0x3d02),
